@@ -37,7 +37,8 @@ def check_vector(P, ver, s):
     prefix, fields = T.parse(ver, s)
     m = dict(fields)
     subs = {}
-    for g, acc in (("temporal", "temporal_vector"), ("environmental", "environmental_vector")):
+    for g, acc in (("temporal", "temporal_vector"), ("environmental", "environmental_vector"),
+                   ("temporal", "temporal_vector"), ("environmental", "environmental_vector")):  # each accessor TWICE
         ok, out = obs.call(lambda: getattr(o, acc)())
         P.ev("group-structure")
         if not ok:
